@@ -72,7 +72,8 @@ __CPROVER_ensures(g_raised_by_own_entry == 0 || g_raised_by_own_entry == 1)
 void preprocess_entry(fsm_t* self, event_t event, fsm_t* fsm)
 __CPROVER_requires(__CPROVER_is_fresh(self, sizeof(*self)) && g_seq == 0 && !g_exc)
 __CPROVER_assigns(self->m_running, self->m_event_processing, g_seq, g_exc, g_raised_by_own_entry)
-__CPROVER_ensures(self->m_running && self->m_event_processing)
+__CPROVER_ensures(self->m_running)                                                /*@ob C03.every-entry-path-marks-the-machine-running-introspection-and-exit-depend-on-it */
+__CPROVER_ensures(self->m_event_processing)                                       /*@ob C04.entry-behaviours-run-with-the-busy-mark-set */
 __CPROVER_ensures(g_exc ? g_seq == 0 : g_seq == 1)
 ;
 void process_event_pool(fsm_t* self)
@@ -98,6 +99,7 @@ __CPROVER_requires(REGIONS_OK && __CPROVER_is_fresh(self, sizeof(*self)) && g_se
 __CPROVER_assigns(self->m_running, self->m_event_processing, __CPROVER_object_upto(self->m_active_state_ids, sizeof(self->m_active_state_ids)), g_seq, g_entry_next, g_exc, g_raised_by_own_entry, g_pool_runs)
 __CPROVER_ensures(!g_exc ==> (g_entry_next == nr_regions && g_seq == 2 && g_pool_runs == (g_has_event_pool ? 1 : 0)))     /*@ob C02,C05.entry-then-pending-events */
 __CPROVER_ensures(!self->m_event_processing)                                                                               /*@ob C04,C12.machine-not-left-busy */
+__CPROVER_ensures(self->m_running)                                                                                         /*@ob C03.entered-machine-is-marked-running */
 ;
 /* on_exit */
 void visit_active_exit(fsm_t* self, event_t event)
@@ -175,6 +177,7 @@ __CPROVER_ensures((!g_exc && NO_TARGET_IN_K && g_nt != nr_regions) ==> (g_hist_c
 __CPROVER_ensures(!g_exc ==> g_entry_next == (g_nt == nr_regions ? g_nt : nr_regions))                                      /*@ob C09.every-region-entered-once */
 __CPROVER_ensures(!g_exc ==> g_pool_runs == (g_has_event_pool ? 1 : 0))
 __CPROVER_ensures(!self->m_event_processing)                                                                               /*@ob C04,C12.machine-not-left-busy */
+__CPROVER_ensures(self->m_running)                                                                                         /*@ob C03.explicitly-entered-machine-is-marked-running */
 ;
 process_result process_event(fsm_t* self, event_t event)
 __CPROVER_requires(g_seq == 2 && g_pe_calls == 0 && !g_exc && !self->m_event_processing)   /*@ob C09.entry-point-event-processed-once-after-the-entry */
